@@ -12,6 +12,7 @@ mod cmd_typecheck;
 mod cmd_conform;
 mod cmd_tc;
 mod cmd_parse;
+mod cmd_fmt;
 
 /// Command families.  To add one: create src/cmd_xxx.rs with
 /// `pub fn dispatch(cmd: &str, v: &J) -> Option<Result<J, String>>`, add `mod cmd_xxx;` above
@@ -23,6 +24,7 @@ const FAMILIES: &[fn(&str, &J) -> Option<Result<J, String>>] = &[
     cmd_conform::dispatch,
     cmd_tc::dispatch,
     cmd_parse::dispatch,
+    cmd_fmt::dispatch,
 ];
 
 fn dispatch(cmd: &str, v: &J) -> Result<J, String> {
